@@ -256,6 +256,36 @@ def r_aggregate_conversion(ck: Checker) -> None:
     firsts = [unparse(c.args[0]).replace(" ", "") for c in apps[:2]]
     ck.add("tuple starts with weight 1 and the sign tag", firsts[:1] == ["SymbolicTerm(LOC,Number(1))"] and len(firsts) == 2 and "nm[" in firsts[1] and ".sign]" in firsts[1], func, e, f"first terms {firsts}",
            "`{a; not a}` has two elements: the sign tag keeps their tuples apart")
+    # comparison elements: clingo counts distinct ground comparison LITERALS, so the tuple carries exactly its variables
+    itc = ck.interp(func, Pins.of(vals={"atom.ast_type": "ASTType.Comparison"}))
+    exts = [c for c in attr_calls(func, "extend") if unparse(c.func.value) == "terms" and itc.reachable(c)]  # type: ignore[attr-defined]
+    ck.need(len(exts) == 1, "variables of a comparison element are appended to the tuple at one site")
+    arg = exts[0].args[0]
+    inner = arg.args[0] if isinstance(arg, ast.Call) and unparse(arg.func) == "sorted" and arg.args else arg
+    what = None
+    if isinstance(inner, ast.Call) and callee_is(ck.prg, func, inner, "ngo.utils.ast:collect_ast") and len(inner.args) == 2 and is_const(inner.args[1], "Variable"):
+        src = inner.args[0]
+        if isinstance(src, ast.Name):
+            d0 = single_def(func, src.id)
+            what = unparse(d0) if d0 is not None else src.id
+        else:
+            what = unparse(src)
+    lp = enclosing_loop(func, exts[0])
+    lv = unparse(lp.target) if lp is not None else "?"
+    ck.add("comparison element: the tuple carries the variables of the comparison literal, sorted", what == f"{lv}.literal.atom" and isinstance(arg, ast.Call) and unparse(arg.func) == "sorted", func, exts[0],
+           f"`{fmt(exts[0])}` collects the variables of `{what}`", "`{ S < 3 : assign(T,S) }` counts distinct S, not distinct (T,S): variables that occur only in the condition must stay out of the tuple; sorted() keeps the output reproducible")
+    # intervals in the literal part: every occurrence stands for its own choice of value
+    ri = ck.func("normalize:_exline_interval.<locals>.replace_interval")
+    iti = ck.interp(ri)
+    rets = [(r, st) for r, st in iti.returns if r.value is not None]
+    ck.need(len(rets) >= 1, "replace_interval returns the replacement")
+    fresh = all(iti.text(r.value, st) == "unique_vars.make_unique(AUX_VAR)" for r, st in rets)
+    ck.add("every interval occurrence gets its own fresh variable", fresh and len({id(r) for r, _ in rets}) == 1, ri, rets[0][0], f"returns {sorted({iti.text(r.value, st) for r, st in rets})}",
+           "`3 { mark(1..2,1..2) }` ranges over the 2x2 block: sharing one variable between equal intervals keeps only the diagonal")
+    lits_i = resolved_calls(ck.prg, ri, "clingo.ast.Literal")
+    oki = len(lits_i) == 1 and same(unparse(lits_i[0]), f"Literal(LOC, Sign.NoSign, Comparison(aux, [Guard(ComparisonOperator.Equal, {ri.params()[0]})]))")
+    reach_all, n_r = (True, 1)
+    ck.add("... defined by a positive `AUX = interval` in the element's condition", oki, ri, lits_i[0] if lits_i else ri.node, f"`{fmt(lits_i[0]) if lits_i else None}`", "")
     mk = resolved_calls(ck.prg, func, "ngo.utils.globals:UniqueVariables.make_unique", into_nested=True)
     ck.add("anonymous variables of positive literals become fresh variables", len(mk) >= 1, func, func.node, f"make_unique calls {len(mk)}", "`{p(_)}` counts distinct p atoms: each `_` must become its own tuple variable")
     ro = ck.func("normalize:replace_old_aggregates")
@@ -266,6 +296,22 @@ def r_aggregate_conversion(ck: Checker) -> None:
         ck.need(len(cs) == 1, f"replace_old_aggregates calls {callee}")
         b = unparse(cs[0].args[0]).removesuffix(".atom")
         ck.guard(f"{callee} only for its own kind", ro, cs[0], cond.format(b=b), "")
+
+
+def r_one_link(ck: Checker) -> None:
+    """guards that are taken over from elsewhere (bounds of an aggregate, links of a chain) are attached one comparison
+    each; only a chain whose guards are all built in place (`P < B < N`, `l <= mid <= r`) may have several links"""
+    n = 0
+    for func in ck.prg.funcs.values():
+        for call in resolved_calls(ck.prg, func, "clingo.ast.Comparison"):
+            n += 1
+            guards = call.args[1] if len(call.args) >= 2 else kwarg(call, "guards")
+            display = isinstance(guards, (ast.List, ast.Tuple)) and not any(isinstance(e, ast.Starred) for e in guards.elts)
+            built = display and all(isinstance(e, ast.Call) and unparse(e.func) == "Guard" for e in guards.elts)  # type: ignore[union-attr]
+            ok = display and (len(guards.elts) == 1 or built)  # type: ignore[union-attr]
+            ck.add(f"Comparison built in {func.name}: guards taken over from elsewhere are attached one by one", ok, func, call, f"guards `{short(unparse(guards) if guards is not None else 'None', 70)}`",
+                   "guards of a chain relate NEIGHBOURING terms: attaching the two bounds of `2 < #max{..} <= 4` to the result as `V > 2 <= 4` means `V > 2, 2 <= 4`", rule="C05.one-link")
+    ck.need(n >= 10, f"Comparison constructor calls found ({n})")
 
 
 def r_exline(ck: Checker) -> None:
@@ -336,7 +382,9 @@ def r_replace_assignments(ck: Checker) -> None:
     ck.guard("simple equality: variable = variable", func, apps[0], f"{lit}.atom.term.ast_type == ASTType.Variable and {lit}.atom.guards[0].term.ast_type == ASTType.Variable", "")
 
 
-RULES = [
+RULES_EXTRA = [Rule("C05.one-link", P + ("C12", "C14", "C11", "C04"), r_one_link)]
+
+RULES = RULES_EXTRA + [
     Rule("C05.TABLE.operators", P + ("C14", "C13"), r_operator_tables),
     Rule("C05.TABLE.bounds", P, r_bounds_table),
     Rule("C05.chain-split", P, r_chain_split),
